@@ -373,6 +373,10 @@ func (v *Visitor) visit(s *df.AnalyzerState, entrypoint *df.CallNodeArg) error {
 							logger.Tracef("Callee summary has not been created")
 							callSite.CalleeSummary = df.NewSummaryGraph(s, callSite.Callee(), df.GetUniqueFunctionID(),
 								isSomeIntraProceduralEntryPoint, nil)
+							if callSite.CalleeSummary != nil {
+								// keep the callee's registry of call sites consistent with the new link
+								callSite.CalleeSummary.Callsites[callSite.CallSite()] = callSite
+							}
 							v.onDemandIntraProcedural(s, callSite.CalleeSummary)
 						}
 					} else {
@@ -499,6 +503,10 @@ func (v *Visitor) visit(s *df.AnalyzerState, entrypoint *df.CallNodeArg) error {
 			if graphNode.CalleeSummary == nil {
 				panic(fmt.Errorf("node's callee summary is nil: %v", graphNode))
 			}
+			// keep the callee's registry of call sites consistent with a link that may have just been updated
+			if x := graphNode.CalleeSummary.Callsites[graphNode.CallSite()]; x == nil {
+				graphNode.CalleeSummary.Callsites[graphNode.CallSite()] = graphNode
+			}
 
 			for _, rets := range graphNode.CalleeSummary.Returns {
 				for _, ret := range rets {
@@ -607,6 +615,10 @@ func (v *Visitor) visit(s *df.AnalyzerState, entrypoint *df.CallNodeArg) error {
 			closureNode := graphNode.ParentNode()
 			if closureNode.ClosureSummary == nil {
 				closureNode.ClosureSummary = df.BuildSummary(s, closureNode.Instr().Fn.(*ssa.Function))
+				if closureNode.ClosureSummary != nil {
+					// keep the closure summary's registry of creation sites consistent with the new link
+					closureNode.ClosureSummary.ReferringMakeClosures[closureNode.Instr()] = closureNode
+				}
 				logger.Tracef("closure summary parent: %v\n", closureNode.ClosureSummary.Parent)
 			}
 
